@@ -73,6 +73,10 @@ fn main() {
         std::panic::set_hook(Box::new(|_| {}));
     }
     let args: Vec<String> = std::env::args().collect();
+    if args.iter().any(|a| a == "--thread-exit-probe") {
+        codec::thread_exit_child();
+        return;
+    }
     let mut groups: HashSet<String> = HashSet::new();
     let mut thorough = false;
     let mut seed: u64 = 0;
@@ -246,6 +250,9 @@ fn main() {
     }
     if ctx.on("dec") && ctx.only_type.is_none() && ctx.replay.is_none() && (ctx.type_filter.is_empty() || ctx.type_filter.iter().any(|f| f == "S(" || f == "M(")) {
         codec::run_coarse_keys(&mut ctx);
+    }
+    if (ctx.on("entry") || ctx.on("enc") || ctx.on("dec")) && ctx.only_type.is_none() && ctx.replay.is_none() {
+        codec::run_thread_exit(&mut ctx);
     }
     if ctx.on("meta") || ctx.on("enc") || ctx.on("entry") || ctx.on("dec") || ctx.on("alloc") {
         for_each_type!(run_type, &mut ctx);
